@@ -9,7 +9,15 @@ from migen import Module, Signal, Cat, Constant
 
 from litex.soc.interconnect import wishbone
 
-from .wbmem import _sram, image
+from .wbmem import _sram, image as _image
+
+
+def image(spec):
+    """backing store image; "db32": a binary de Bruijn sequence of order 5 (every window of 5 consecutive bytes
+    is unique over 32 bytes, so a beat served from another wrap block is seen), else the patterns of wbmem"""
+    if spec.get("init") == "db32":
+        return [(0x077CB531 >> (b % 32)) & 1 for b in range(spec["backing_bytes"])]
+    return _image(spec)
 
 
 def _log2(n):
@@ -34,7 +42,7 @@ def make(spec):
         master = sram.bus
     elif kind == "bdown":     # master dw -> bursting SRAM of dw/ratio
         ratio = spec["ratio"]
-        sram = _sram(dw // ratio, words * ratio, img, aw=aw + _log2(ratio), bursting=True)
+        sram = _sram(dw // ratio, words * ratio, img, aw=aw + _log2(ratio), bursting=bool(spec.get("slave_bursting", 1)))
         master = wishbone.Interface(data_width=dw, adr_width=aw, bursting=True)
         top.submodules += sram, wishbone.DownConverter(master, sram.bus)
         slave = sram.bus
@@ -101,7 +109,7 @@ def required_witnesses(spec):
         w.append("incrementing read burst, third or later beat")
     if ml >= 2 and btes and 1 in wes:
         w.append("incrementing write burst, second or later beat")
-    if ml >= 2 and any(b for b in btes):
+    if ml >= 2 and any(b and WRAPLEN[b] < spec["words"] for b in btes):     # else wrap-n = linear modulo the address space
         w.append("wrapped beat (address differs from the linear one)")
     if ml >= 2 and 0 in btes:
         w.append("linear burst across the top of the address space")
@@ -182,27 +190,49 @@ class Hint:
 
 
 def configs(tier):
+    """flags: live = the liveness property is model-checked for this DUT (else invariants only); alone = own batch;
+    nofollowup = demonstration configuration of a listed finding (gcheck drops the DUT after the finding)"""
     out = []
+    th = tier == "thorough"
 
     def add(**spec):
+        spec.setdefault("live", True)
         spec.setdefault("backing_bytes", spec["words"] * spec["lanes"])
         out.append(spec)
-    # --- quick: three small DUTs (wrap-4 on a writable 4-word memory, wrap-4/8 on a read-only 8-word memory,
-    #     cti translation of the down-converter)
-    add(kind="bsram", lanes=1, words=4, init="idx", btes=[0, 1], maxlen=4)
-    add(kind="bsram_ro", lanes=1, words=8, init="idx", btes=[0, 1, 2], maxlen=4, classic=1, const=1)
-    add(kind="bdown", lanes=2, words=2, ratio=2, init="alt", btes=[0, 1], maxlen=3, sels=[1, 2, 3], rsels=[3, 1],
-        sside=1, const=1)
-    if tier == "thorough":
-        add(kind="bsram", lanes=2, words=4, init="alt", btes=[0, 1], maxlen=4, sels=[1, 2, 3], const=0, end1=0)
-        add(kind="bsram", lanes=1, words=8, init="idx", btes=[0, 1, 2], maxlen=8, const=0, end1=0, classic=1)
+    # wrap-4/8 and linear bursts of up to 6 (16) beats on a read-only 16-word memory: every start address, bursts
+    # longer than the wrap size, linear bursts across the top of the address space, writes ignored
+    add(kind="bsram_ro", lanes=1, words=16, init="idx", btes=[0, 1, 2, 3] if th else [0, 1, 2], maxlen=16 if th else 6)
+    # byte lanes of a 16-bit memory in write bursts
+    add(kind="bsram", lanes=2, words=2, init="alt", btes=[0], maxlen=3, sels=[1, 2, 3])
+    # cti translation of the down-converter (16 -> 8 bit), slave side observed
+    add(kind="bdown", lanes=2, words=2, ratio=2, init="alt", btes=[0, 1], maxlen=3, sels=[1, 2, 3], rsels=[3, 1], sside=1)
+    # ... and its treatment of wrap bursts (turned into classic cycles): needs more master words than the wrap size;
+    # reads only (a writable 16-byte memory is out of reach)
+    add(kind="bdown", lanes=2, words=8, ratio=2, init="idx", btes=[0, 1], maxlen=4, wes=[0], rsels=[3], sside=1,
+        const=0, end1=0)
+    # up-converter (8 -> 16 bit) in front of a bursting SRAM: everything but incrementing bursts ...
+    add(kind="bup", lanes=1, words=4, ratio=2, init="idx", btes=[], maxlen=3, sside=1)
+    # ... and the demonstration of the listed finding C07b-upconverter-burst-tags (reads only: one failing clause)
+    add(kind="bup", lanes=1, words=8, ratio=2, init="idx", btes=[0], maxlen=3, wes=[0], const=0, end1=0, classic=0,
+        alone=True, nofollowup=True, live=False)
+    # write bursts on an 8-word memory (wrap-4 differs from linear only from 8 words on; 2^8 memory contents, so no
+    # liveness run in quick - the acknowledge logic does not depend on the content and is judged on the other DUTs)
+    add(kind="bsram", lanes=1, words=8, init="idx", btes=[0, 1], maxlen=8 if th else 4, const=0, end1=0, live=th, alone=True)
+    if th:
+        add(kind="bsram", lanes=2, words=4, init="alt", btes=[0], maxlen=4, sels=[1, 2, 3], const=0, end1=0, alone=True)
         add(kind="bsram", lanes=1, words=4, init="idx", btes=[0, 1, 2, 3], maxlen=8, adr_extra=2)
-        add(kind="bsram_ro", lanes=1, words=16, init="idx", btes=[0, 1, 2, 3], maxlen=16, const=0, wes=[0])
         add(kind="bsram_ro", lanes=2, words=8, init="idx", btes=[0, 1, 2], maxlen=8, rsels=[3, 1, 2])
+        # wrap-16 differs from linear only from 32 words on
+        add(kind="bsram_ro", lanes=1, words=32, init="db32", btes=[0, 3], maxlen=16, wes=[0], const=0, end1=0)
         add(kind="sram_nb", lanes=1, words=4, init="idx", btes=[0, 1], maxlen=4)
-        add(kind="bdown", lanes=2, words=4, ratio=2, init="alt", btes=[0, 1], maxlen=4, sels=[1, 2, 3], rsels=[3],
-            sside=1, const=0, end1=1)
-        add(kind="bdown", lanes=4, words=2, ratio=4, init="alt", btes=[0], maxlen=3, sels=[15, 5, 8], rsels=[15],
-            sside=1, const=0)
         add(kind="bconv", lanes=1, words=4, init="idx", btes=[0, 1], maxlen=4, sside=1)
+        # burst tags translated by the down-converter for a slave that ignores them
+        add(kind="bdown", lanes=2, words=2, ratio=2, init="alt", btes=[0], maxlen=3, sels=[1, 2, 3], rsels=[3, 1], sside=1,
+            slave_bursting=0)
+        # the two big ones (2^8 memory contents behind the converter's own state): invariants only, the
+        # acknowledge/count logic does not depend on the content and is judged with liveness on the 2-word DUT
+        add(kind="bdown", lanes=2, words=4, ratio=2, init="alt", btes=[0, 1], maxlen=4, sels=[1, 2, 3], rsels=[3],
+            sside=1, const=0, alone=True, live=False)
+        add(kind="bdown", lanes=4, words=2, ratio=4, init="alt", btes=[0], maxlen=3, sels=[15, 5, 8], rsels=[15],
+            sside=1, const=0, alone=True, live=False)
     return [(s, tla_cfg(s, i + 1)) for i, s in enumerate(out)]
